@@ -67,6 +67,25 @@ def gen_prop_ast(rng):
             x["vb"] = rng.choice([[0, 0], [1, 1]])
     return g, a
 
+def twin_config_ast(rng):
+    """a configurator with a defaulted choice whose non-default branch also occurs, as a plain unnamed Any / Xor over the same
+    items, under another rule; ids chosen so that the look-alike's parent sorts before or after the choice"""
+    items = rng.sample(list("pqrstuvwxyz"), rng.randint(5, 7))
+    ch_items = items[:rng.randint(3, 4)]
+    dflt = rng.choice(ch_items)
+    rest = [x for x in ch_items if x != dflt]
+    kind = rng.choice(["CcAny", "CcAny", "CcXor"])
+    choice = {"k": kind, "ch": [{"k": "str", "id": x} for x in ch_items], "default": [dflt], "id": rng.choice(["B", "M", None])}
+    twin = {"k": "Any" if kind == "CcAny" else rng.choice(["Any", "Xor"]), "ch": [{"k": "str", "id": x} for x in rest], "id": None}
+    user = {"k": rng.choice(["Any", "All", "Imply"]), "ch": [{"k": "str", "id": items[-1]}, twin], "id": rng.choice(["A", "Z", None])}
+    rules = [choice, user]
+    if rng.random() < 0.6:
+        other = items[len(ch_items):-1] + [items[-1]]
+        if len(other) >= 2:
+            rules.append({"k": rng.choice(["CcAny", "CcXor"]), "ch": [{"k": "str", "id": x} for x in other[:3]], "default": [other[0]], "id": rng.choice(["C", None])})
+    rng.shuffle(rules)
+    return {"k": "Stingy", "ch": rules, "id": "cfg"}
+
 def rec_solver(log):
     def solver(poly, objs):
         objs = [np.asarray(o) for o in objs]
@@ -359,6 +378,8 @@ def run(res, tier, seed):
     while made < n_cfgpoly and tries < n_cfgpoly * 6:
         tries += 1
         g, ast = gen_prop_ast(rng)
+        if tries % 5 == 0:
+            ast = twin_config_ast(rng); res.count("cfgpoly_twin_pattern")
         if ast["k"] != "Stingy":
             names0 = [n for n, bnd in g.leaves.items() if bnd == [0, 1]] or ["a"]
             ast = {"k": "Stingy", "ch": [ast], "id": "cfg"}
